@@ -73,6 +73,7 @@ type Unit struct {
 	splits []splitInfo
 	globalsUsed map[string]bool
 	bvCallees map[string]bool
+	seqElemTypes map[string]types.Type
 }
 
 type splitInfo struct {
